@@ -27,6 +27,7 @@ OPS = {
     'SetAlertState': 'as0.mds0_rem_dele',
 }
 HANDLERS = ('real', 'ok', 'ok-mod', 'fail', 'raise')
+QUEUE_CAPACITY = 10     # sco._OperationsWorker: queue.Queue(10)
 
 
 # ------------------------------------------------------------------ provider side
@@ -102,6 +103,7 @@ def run_provider_case(case, acc=None):
     n0 = len(w.wire.log)
     futures = []
     last_id = 0
+    rejected_by_fault = 0
     for (ci, kind, delayed, mode) in case:
         handle = OPS.get(kind, 'no.such.operation') if kind != 'Unknown' else 'no.such.operation'
         if kind != 'Unknown' and _install_handler(p, handle, mode, delayed) is None:
@@ -109,6 +111,11 @@ def run_provider_case(case, acc=None):
         try:
             fut = _send(consumers[ci], p, 'SetString' if kind == 'Unknown' else kind, handle)
         except Exception as ex:  # noqa: BLE001
+            if len(case) > QUEUE_CAPACITY and len(futures) >= QUEUE_CAPACITY and delayed:
+                # a burst beyond the capacity of the operation queue: refusing the request (fault) is an answer that
+                # promises nothing; what is not allowed is to promise Wait and never execute
+                rejected_by_fault += 1
+                continue
             problems.append(f'request raised {ex!r}')
             return 'ok', problems
         futures.append((fut, kind, delayed, mode))
@@ -387,8 +394,20 @@ def _judge(futs, expect, problems, filler):
             problems.append(f'transaction {tid}: completed with {final}, final state is {finals[0]}')
         parts = [p.InvocationInfo.InvocationState.value for p in res.report_parts]
         # every part of this transaction delivered up to the moment the handle completed, once each, in order
-        upto = futs['_done_at'].get(tid, 10 ** 6)
-        exp_parts = [st for i, (k, t, st) in enumerate(futs['_order'], 1) if k == 'rep' and t == tid and i <= upto]
+        if resp_state in ('Fail', 'Cnclld', 'CnclldMan'):
+            # a failing response completes the call at once (there may never be a report): the parts delivered up to
+            # that moment
+            upto = futs['_done_at'].get(tid, 10 ** 6)
+            exp_parts = [st for i, (k, t, st) in enumerate(futs['_order'], 1) if k == 'rep' and t == tid and i <= upto]
+        else:
+            # otherwise the final state comes with a report: all parts up to and including the first final report,
+            # wherever the response arrives in between
+            exp_parts = []
+            for k, t, st in futs['_order']:
+                if k == 'rep' and t == tid:
+                    exp_parts.append(st)
+                    if st in FINAL:
+                        break
         if filler < 48 and parts != exp_parts:
             problems.append(f'transaction {tid}: report parts {parts}, delivered before completion: {exp_parts} (response {resp_state})')
         tids = {p.InvocationInfo.TransactionId for p in res.report_parts}
@@ -441,6 +460,11 @@ def provider_cases(quick):
                 if k1 == k2 and m1 != m2:
                     continue  # one operation object has one handler
                 cases.append([(0, k1, d1, m1), (1, k2, d2, m2)])
+    # bursts that fill the operation queue (capacity 10) before the worker gets to run
+    for n in ((10, 12) if quick else (9, 10, 11, 12, 13)):
+        cases.append([(i % 2, 'SetString', True, 'ok') for i in range(n)])
+    if not quick:
+        cases.append([(0, 'Activate', True, 'raise') for _ in range(12)])
     if not quick:
         for k in kinds[:3]:
             cases.append([(0, k, True, 'ok'), (1, k, True, 'ok'), (0, k, False, 'ok')])
